@@ -48,7 +48,14 @@ func VerifC13_DecoratorMalformedResponse() {
 	md := att.Object["metadata"].(map[string]interface{})
 	what := "valid"
 	var atts []*unstructured.Unstructured
-	switch rt.Choice("malformed-field", 9) {
+	switch rt.Choice("malformed-field", 11) {
+	case 9:
+		what = "two-adjacent-null-attachments"
+		atts = append(atts, nil, nil)
+	case 10:
+		what = "valid-null-null-valid"
+		att2 := env.ConfigMap("", "b", "", "v") // no namespace: must be defaulted to the target's
+		atts = append(atts, att, nil, nil, att2)
 	case 0:
 		atts = append(atts, att)
 	case 1:
@@ -119,6 +126,11 @@ func VerifC13_DecoratorMalformedResponse() {
 		return
 	}
 	rt.Cover("malformed")
+	if what == "valid-null-null-valid" {
+		// null entries are dropped, the real attachments are applied (namespace defaulted)
+		rt.Assert(err == nil, "decorator/nulls-between-valid-attachments/error")
+		rt.Assert(w.Srv.Peek("configmaps", "ns", "a") != nil && w.Srv.Peek("configmaps", "ns", "b") != nil, "decorator/nulls-between-valid-attachments/attachment-not-created-in-target-namespace")
+	}
 	for _, r := range w.Srv.Writes() {
 		rt.Assert(r.Resource == "things" || r.Resource == "configmaps", "decorator/write-to-undeclared-resource")
 	}
